@@ -271,7 +271,7 @@ mod verif_replay_interp {
 
     const AUTOFORWARD: &str = r###"<scxml xmlns="http://www.w3.org/2005/07/scxml" initial="s0" version="1.0" datamodel="rfsm-expression">
  <state id="s0">
-  <onentry><send event="timeout" delay="3s"/></onentry>
+  <onentry><send event="timeout" delay="5s"/></onentry>
   <invoke type="scxml" id="kid" autoforward="AUTOFORWARD"><content><scxml xmlns="http://www.w3.org/2005/07/scxml" initial="c0" version="1.0" datamodel="rfsm-expression"><state id="c0"><transition event="ping" target="c1"/></state><state id="c1"><onentry><send target="#_parent" event="child.gotping"/></onentry></state></scxml></content></invoke>
   <transition event="child.gotping" target="forwarded"/>
   <transition event="timeout" target="notforwarded"/>
@@ -290,7 +290,7 @@ mod verif_replay_interp {
     const FINALIZE: &str = r###"<scxml xmlns="http://www.w3.org/2005/07/scxml" initial="s0" version="1.0" datamodel="rfsm-expression">
  <datamodel><data id="seen" expr="0"/></datamodel>
  <state id="s0">
-  <onentry><send event="timeout" delay="3s"/></onentry>
+  <onentry><send event="timeout" delay="6s"/></onentry>
   <invoke type="scxml" INVOKEID><content><scxml xmlns="http://www.w3.org/2005/07/scxml" initial="c0" version="1.0" datamodel="rfsm-expression"><state id="c0"><onentry><send target="#_parent" event="child.hello"/></onentry></state></scxml></content>
    <finalize><assign location="seen" expr="seen + 1"/></finalize>
   </invoke>
@@ -488,7 +488,7 @@ mod verif_replay_interp {
 
     const CANCEL: &str = r###"<scxml xmlns="http://www.w3.org/2005/07/scxml" initial="s0" version="1.0" datamodel="rfsm-expression">
  <state id="s0">
-  <onentry><send event="nochild" delay="3s"/></onentry>
+  <onentry><send event="nochild" delay="6s"/></onentry>
   <invoke type="scxml" id="ticker"><content><scxml xmlns="http://www.w3.org/2005/07/scxml" initial="c0" version="1.0" datamodel="rfsm-expression"><state id="c0"><onentry><send target="#_parent" event="tick"/><send event="again" delay="100ms"/></onentry><transition event="again" target="c0"/></state></scxml></content></invoke>
   <transition event="tick" target="s1"/>
   <transition event="nochild" target="childsilent"/>
@@ -792,7 +792,7 @@ mod verif_replay_interp {
     const TWO_INVOKES: &str = r###"<scxml xmlns="http://www.w3.org/2005/07/scxml" initial="s0" version="1.0" datamodel="rfsm-expression">
  <datamodel><data id="ida"/><data id="idb"/></datamodel>
  <state id="s0">
-  <onentry><send event="timeout" delay="2s"/></onentry>
+  <onentry><send event="timeout" delay="5s"/></onentry>
   <invoke type="scxml" idlocation="ida"><content><scxml xmlns="http://www.w3.org/2005/07/scxml" initial="c0" version="1.0" datamodel="rfsm-expression"><state id="c0"><transition target="cf"/></state><final id="cf"/></scxml></content></invoke>
   <invoke type="scxml" idlocation="idb"><content><scxml xmlns="http://www.w3.org/2005/07/scxml" initial="c0" version="1.0" datamodel="rfsm-expression"><state id="c0"><onentry><send target="#_parent" event="from.b" delay="400ms"/></onentry></state></scxml></content></invoke>
   <transition event="from.b" cond="ida != idb" target="pass"/>
